@@ -27,7 +27,7 @@ ASSUMPTIONS = [
     'to_json: "includes an object" = the object appears in the `objects` section; a bare foreign-key value of an unviewable object is not counted',
 ]
 RULE = ('every implementation run is judged twice - by the Coq model (correspondence) and by the statement-level oracle (search): `evaluations` counts both judgements, `distinct_nontrivial` counts each distinct run once. ' 'exhaustive: every single rule over {context entities} x {permissions} x {groups} x {roles} x {labels} x {excluded entities} x {excluded attributes} of a 2-entity '
-        'model (4608 rule sets; 2112 in the quick tier: no edit-only rules, at most two excluded attributes), every unordered pair over a reduced universe, seeded random triples; 720 histories across two sessions of one thread (check; session ends with commit or exception; the groups / roles of the user change; check); per rule set the full table user x permission x target '
+        'model (4608 rule sets; 2112 in the quick tier: no edit-only rules, at most two excluded attributes), every unordered pair over a reduced universe, seeded random triples; 720 histories across two sessions of one thread (check; session ends with commit or exception; the groups / roles of the user change; check); declarations over a second universe with a subclass and a hidden attribute (all single declarations, seeded pairs); per rule set the full table user x permission x target '
         '(2 entities, 4 attributes, 4 objects) of has_perm, can_view, to_json of single objects and to_json with include=[relationship] (related object already loaded / loaded by to_json itself). non-trivial = the table contains both granted and refused cells; '
         'distinct = distinct rule sets')
 
@@ -126,6 +126,64 @@ def session_cases(ctx):
     return out
 
 
+def inherit_cases(ctx):
+    """declarations over Base <- Sub, Other (view only): context x groups x excluded entities x excluded attributes, singles and pairs"""
+    singles = []
+    for c in ([0], [1], [2], [0, 2], [1, 2]):
+        for g in ([], ['g1']):
+            for xe in ([], [0], [1], [2], [0, 2]):
+                for xa in ([], [0], [2]):
+                    singles.append({'ctx': c, 'groups': g, 'exclE': xe, 'exclA': xa})
+    out = [[d] for d in singles]
+    rng = ctx.rng
+    for _ in range(ctx.scale(150, 1500)):
+        out.append([singles[rng.randrange(len(singles))], singles[rng.randrange(len(singles))]])
+    return out
+
+
+def run_inherit(ctx, decls):
+    return vlib.run_impl('c34_driver.py', {'mode': 'inherit', 'decls': decls, 'rulesets': []}, timeout=600)['results']
+
+
+def inherit_expr(decls, table):
+    ds = c_list('D %s %s %s %s' % (c_nats(d['ctx']), c_nats([0] + [GID[g] for g in d['groups']]), c_nats(d['exclE']), c_nats(d['exclA'])) for d in decls)
+    return 'bools_eqb (inherit_table %s) %s' % (ds, c_bools(table))
+
+
+SUBS3 = {0: [1], 1: [], 2: []}
+ATTR_ENT3 = {0: 0, 1: 0, 2: 2}
+INAMES = ['Base', 'Sub', 'Other', 'Base.name', 'Base.secret(hidden)', 'Other.title', 'base1', 'sub1', 'other1']
+
+def inherit_spec(decls, u, kind, i):
+    """statement-level: a rule declared for an entity applies to it and its subclasses; exclude(E) covers E's subclasses; hidden attributes are never granted"""
+    G = {'g1'} if u == 2 else set()
+    def applies(d, e): return any(e == c or e in SUBS3[c] for c in d['ctx'])
+    def excluded(d, e): return any(e == x or e in SUBS3[x] for x in d['exclE'])
+    ok = lambda d, e: applies(d, e) and set(d['groups']) <= G and not excluded(d, e)
+    if kind in ('E', 'O'): return any(ok(d, i) for d in decls)
+    if i == 1: return False
+    e = ATTR_ENT3[i]
+    return any(ok(d, e) and i not in d['exclA'] for d in decls)
+
+ITARGETS = [('E', 0), ('E', 1), ('E', 2), ('A', 0), ('A', 1), ('A', 2), ('O', 0), ('O', 1), ('O', 2)]
+
+def inherit_failures(cases, res):
+    fails, seen = [], {}
+    for decls, r in zip(cases, res):
+        k = 0
+        for u in (0, 2):
+            for ti, (kind, i) in enumerate(ITARGETS):
+                got = r['table'][k]; k += 1
+                want = inherit_spec(decls, u, kind, i)
+                if got != want:
+                    what = 'hidden-attribute-granted' if (kind == 'A' and i == 1) else ('subclass' if i == 1 and kind in ('E', 'O') else 'other')
+                    key = 'inheritance:%s:%s' % (what, 'granted-not-declared' if got else 'declared-not-granted')
+                    seen[key] = seen.get(key, 0) + 1
+                    if seen[key] == 1: fails.append(Failure(key, 'has_perm(user %d, view, %s) = %s, the declarations say %s; declarations %s'
+                                                            % (u, INAMES[ti], got, want, json.dumps(decls)), {'inherit_case': decls, 'key': key}))
+    return fails, seen
+
+
 def run_sessions(ctx, cases):
     return vlib.run_impl('c34_driver.py', {'mode': 'sessions', 'cases': cases, 'rulesets': []}, timeout=600)['results']
 
@@ -212,7 +270,7 @@ def hp_cells(table):
     for u in range(3): out += table[u * PER_USER: u * PER_USER + 20]
     return out
 
-PER_USER = 42
+PER_USER = 48
 RELATED = {0: 2, 1: 3, 2: 0, 3: 1}
 
 HEADER = ('From Coq Require Import List Bool Arith NArith.\nImport ListNotations.\n'
@@ -256,8 +314,19 @@ def correspondence(ctx):
     n_tables = len(exprs)
     for case, r in zip(scases, sres):
         exprs.append(session_expr(case, r['answers'])); meta.append((case, r))
+    icases = inherit_cases(ctx)
+    ires = run_inherit(ctx, icases)
+    _cache['inherit'] = (icases, ires)
+    dist['inheritance'] = len(icases)
+    n_sessions_end = len(exprs)
+    for decls, r in zip(icases, ires):
+        exprs.append(inherit_expr(decls, r['table'])); meta.append((decls, r))
     bad = run_bools(ctx, exprs)
     for i in bad[:10]:
+        if i >= n_sessions_end:
+            decls, r = meta[i]
+            disagreements.append({'what': 'model and implementation differ on declarations with inheritance / hidden attributes', 'input': decls, 'impl': r, 'coq_case': exprs[i][:1500]})
+            continue
         if i >= n_tables:
             case, r = meta[i]
             disagreements.append({'what': 'model and implementation differ on a history across sessions', 'input': case, 'impl': r, 'coq_case': exprs[i][:1500]})
@@ -392,6 +461,20 @@ def failures_of(rs, res):
                     if key:
                         seen[key] = seen.get(key, 0) + 1
                         if seen[key] == 1: fails.append(Failure(key, what + '; rules %s' % json.dumps(rules), {'rules': rules, 'key': key, 'order': order}))
+            # schema section: entity / attribute listed iff the specification lets the user view it (both sides for a relationship)
+            cvs = lambda kind, i: spec(rules, order, u, 'view', kind, i) or spec(rules, order, u, 'edit', kind, i)
+            for ci, (kind, i) in enumerate([('E', 0), ('E', 1), ('A', 0), ('A', 1), ('A', 2), ('A', 3)]):
+                got = t[k]; k += 1
+                if kind == 'E': want = cvs('E', i)
+                else:
+                    want = cvs('E', ATTR_ENT[i]) and cvs('A', i)
+                    rv = ATTR_REV.get(i)
+                    if rv is not None: want = want and cvs('E', ATTR_ENT[rv]) and cvs('A', rv)
+                if got != want:
+                    key = 'to_json:schema:%s-%s' % ('entity' if kind == 'E' else 'attribute', 'listed-though-not-viewable' if got else 'missing-though-viewable')
+                    seen[key] = seen.get(key, 0) + 1
+                    if seen[key] == 1: fails.append(Failure(key, 'schema section for user %d: %s listed=%s, the declared rules say %s; rules %s'
+                                                            % (u, TNAMES[ci], got, want, json.dumps(rules)), {'rules': rules, 'key': key, 'order': order}))
         assert k == len(t), (k, len(t))
     return fails, seen
 
@@ -403,6 +486,10 @@ def search(ctx, deep):
         sc = session_cases(ctx); _cache['sessions'] = (sc, run_sessions(ctx, sc))
     sf, sseen = session_failures(*_cache['sessions'])
     fails += sf; seen.update(sseen)
+    if 'inherit' not in _cache:
+        ic = inherit_cases(ctx); _cache['inherit'] = (ic, run_inherit(ctx, ic))
+    jf, jseen = inherit_failures(*_cache['inherit'])
+    fails += jf; seen.update(jseen)
     nt = set(json.dumps(r, sort_keys=True) for r, x in zip(rs, res) if any(x['table']) and not all(x['table']))
     if (ctx.seed, ctx.tier, deep) in _counted: nt = set()      # same executions as the correspondence run: count distinct cases once
     return Search(evaluations=len(rs), failures=fails, nontrivial=len(nt), exhaustive=True,
@@ -411,6 +498,12 @@ def search(ctx, deep):
 
 
 def replay(ctx, data):
+    if 'inherit_case' in data:
+        decls = data['inherit_case']
+        fails, _ = inherit_failures([decls], run_inherit(ctx, [decls]))
+        for f in fails:
+            if data.get('key') is None or f.key == data['key']: return f
+        return None
     if 'session_case' in data:
         case = data['session_case']
         fails, _ = session_failures([case], run_sessions(ctx, [case]))
